@@ -14,7 +14,10 @@ import (
 	"encoding/json"
 	"errors"
 	"fmt"
+	"io"
 	"log/slog"
+	"net/http"
+	"slices"
 	"strings"
 	"sync"
 	"testing"
@@ -44,6 +47,14 @@ type c13Spec struct {
 	// CloseOnTick: the application's Close falls on the very instant of a keep-alive tick (which of the two goes
 	// first is the scheduler's choice)
 	CloseOnTick bool `json:"close_on_tick,omitempty"`
+	// Via: what carries the session (client cases): "" the scripted connection | streamable | sse: the SDK's own HTTP
+	// client transport against a scripted HTTP peer, which gives every ping its outcome at the HTTP level: answered (in
+	// the POST's response / on the event stream), accepted and never answered, the POST itself left without a response
+	// (W), refused with 503 (R)
+	Via string `json:"via,omitempty"`
+	// NFStatus (streamable): the HTTP status that accompanies the JSON-RPC method-not-found error of N/D: 200, 400,
+	// or 404 (the mapping of SEP-2575), on a session that has an Mcp-Session-Id
+	NFStatus int `json:"nf_status,omitempty"`
 }
 
 func genC13(r *vh.Rand, idx int) c13Spec {
@@ -133,6 +144,14 @@ func genC13(r *vh.Rand, idx int) c13Spec {
 			}
 		}
 	}
+	// half of the client cases run over a real HTTP client transport (drawn last: the other attributes are what they were)
+	via, nf, use := r.Choose("streamable", "sse"), []int{200, 404, 400, 404}[r.Intn(4)], r.Bool()
+	if use && s.Side == "client" && !slices.Contains(s.Pattern, "B") {
+		s.Via, s.CloseErr = via, false
+		if via == "streamable" {
+			s.NFStatus = nf
+		}
+	}
 	return s
 }
 
@@ -140,7 +159,7 @@ func TestVerifC13(t *testing.T) {
 	cfg := vh.Config{
 		Property: "C13",
 		Cases:    vh.Pick(1500, 60000),
-		Rule: "each case: a client or server session with KeepAlive in {10 ms, 1 s, 1 h} and failure threshold in {0,1,2,3,5} over a scripted peer; ping outcomes follow a pattern of length 1..12 over {answered, answered late (< interval/2), silence, silence with the follow-up cancellation notice rejected, write blocked until the ping's deadline, method-not-found (bare or with an error data member), write rejected}, answered afterwards; 1/3 of the sessions come about without the legacy handshake (client asking for its default version and falling back to initialize; server whose peer never initializes or opens with server/discover); 1/4 have a user call without deadline outstanding that the peer never answers (it must fail, as connection closed, at the instant keep-alive closes the session); the transport's Close optionally reports an error; the harness closes the session a few intervals later. " +
+		Rule: "each case: a client or server session with KeepAlive in {10 ms, 1 s, 1 h} and failure threshold in {0,1,2,3,5} over a scripted peer (half of the client cases: over the SDK's streamable or HTTP+SSE client transport against a scripted HTTP server that has a session id and a hanging GET, outcomes given at the HTTP level: answered in the POST's response / on the event stream, accepted and never answered, the POST left without a response, refused with 503, method-not-found with status 200, 400 or 404); ping outcomes follow a pattern of length 1..12 over {answered, answered late (< interval/2), silence, silence with the follow-up cancellation notice rejected, write blocked until the ping's deadline, method-not-found (bare or with an error data member), write rejected}, answered afterwards; 1/3 of the sessions come about without the legacy handshake (client asking for its default version and falling back to initialize; server whose peer never initializes or opens with server/discover); 1/4 have a user call without deadline outstanding that the peer never answers (it must fail, as connection closed, at the instant keep-alive closes the session); the transport's Close optionally reports an error; the harness closes the session a few intervals later. " +
 			"Thorough tier: all patterns over {A,S,N,R} up to length 6 x 4 thresholds. non-trivial: >=1 failed ping and (>=1 answered ping after a failure, or the session was closed by keep-alive). distinct = distinct (side, interval, threshold, pattern)",
 		MinNontrivial: 100,
 		Assumptions:   []string{"the peer keeps draining its input; a missed ping is one that was received and not answered", "a ping whose write is rejected by the transport fails at once"},
@@ -252,6 +271,15 @@ func runC13(c *vh.Case, spec c13Spec) {
 	var closeFn func() error
 	var waitFn func() error
 	var userCall func() error
+	// peer != nil: the session runs over an HTTP client transport, and the peer is the HTTP server behind it
+	var peer *c13HTTPPeer
+	inject := func(msg jsonrpc.Message) {
+		if peer != nil {
+			peer.push(msg)
+		} else {
+			sc.Inject(msg)
+		}
+	}
 	// the user's own call has no deadline; the user gives up on it only when the scenario ends
 	uctx, ucancel := context.WithCancel(ctx)
 	defer ucancel()
@@ -265,7 +293,16 @@ func runC13(c *vh.Case, spec c13Spec) {
 		if spec.Hand == "fallback" {
 			cso = nil
 		}
-		cs, err := client.Connect(ctx, sc, cso)
+		var tr mcp.Transport = sc
+		switch spec.Via {
+		case "streamable":
+			peer = newC13HTTPPeer(spec, log, iv)
+			tr = &mcp.StreamableClientTransport{Endpoint: "http://example.test/mcp", HTTPClient: (&vhm.InProc{Handler: peer}).Client(), MaxRetries: -1}
+		case "sse":
+			peer = newC13HTTPPeer(spec, log, iv)
+			tr = &mcp.SSEClientTransport{Endpoint: "http://example.test/sse", HTTPClient: (&vhm.InProc{Handler: peer}).Client()}
+		}
+		cs, err := client.Connect(ctx, tr, cso)
 		if err != nil {
 			c.Inconclusive("connect: %v", err)
 			return
@@ -275,7 +312,7 @@ func runC13(c *vh.Case, spec c13Spec) {
 			userCall = func() error { _, err := cs.ListTools(uctx, nil); return err }
 		}
 		if spec.Incoming != "" {
-			sc.Inject(vhm.Req("hold", "sampling/createMessage", `{"messages":[{"role":"user","content":{"type":"text","text":"x"}}],"maxTokens":1}`))
+			inject(vhm.Req("hold", "sampling/createMessage", `{"messages":[{"role":"user","content":{"type":"text","text":"x"}}],"maxTokens":1}`))
 		}
 	} else {
 		server := mcp.NewServer(&mcp.Implementation{Name: "s", Version: "1"}, &mcp.ServerOptions{KeepAlive: iv, KeepAliveFailureThreshold: spec.Threshold, Logger: sdkLog})
@@ -325,7 +362,7 @@ func runC13(c *vh.Case, spec c13Spec) {
 	if userCall == nil {
 		if spec.Incoming == "parked" {
 			// a live peer withdraws its request before the application closes (a graceful Close waits for handlers)
-			sc.Inject(vhm.Req(nil, "notifications/cancelled", `{"requestId":"hold"}`))
+			inject(vhm.Req(nil, "notifications/cancelled", `{"requestId":"hold"}`))
 			synctestWait()
 		}
 		log.Add("harness-close")
@@ -349,7 +386,9 @@ func runC13(c *vh.Case, spec c13Spec) {
 			cmu.Lock()
 			id, ok := pendID, havePend
 			cmu.Unlock()
-			if ok {
+			if peer != nil {
+				peer.answerUserCall()
+			} else if ok {
 				log.Add("user-call-answered")
 				sc.Inject(vhm.Resp(id, `{"tools":[],"roots":[]}`))
 			}
@@ -368,7 +407,230 @@ func runC13(c *vh.Case, spec c13Spec) {
 	// nothing may ping (or tick) any more
 	time.Sleep(10 * iv)
 	log.Add("end")
+	if peer != nil {
+		close(peer.release)
+	}
 	time.Sleep(11 * time.Second)
+}
+
+// c13HTTPPeer is the peer of the cases that run over one of the SDK's HTTP client transports: an HTTP server that gives
+// every ping the outcome the pattern says. Over streamable HTTP (with a session id and a standalone stream) a response
+// travels in the response of the POST that carried the request; over HTTP+SSE every POST is acknowledged with 202 and
+// the response follows on the event stream. The end of the hanging GET is the closure of the transport.
+type c13HTTPPeer struct {
+	spec c13Spec
+	log  *vh.Log
+	iv   time.Duration
+	sse  bool
+
+	mu           sync.Mutex
+	nPing        int
+	rejectCancel bool
+	pendSeen     bool
+	events       chan string   // messages for the hanging GET
+	answer       chan struct{} // closed when the peer is to answer the user's call
+	release      chan struct{} // closed when the scenario is over: whatever is still parked here returns
+}
+
+func newC13HTTPPeer(spec c13Spec, log *vh.Log, iv time.Duration) *c13HTTPPeer {
+	return &c13HTTPPeer{spec: spec, log: log, iv: iv, sse: spec.Via == "sse", events: make(chan string, 64), answer: make(chan struct{}), release: make(chan struct{})}
+}
+
+// push sends msg to the client on the hanging GET.
+func (p *c13HTTPPeer) push(msg jsonrpc.Message) {
+	b, err := jsonrpc.EncodeMessage(msg)
+	if err != nil {
+		panic(err)
+	}
+	select {
+	case p.events <- string(b):
+	case <-p.release:
+	}
+}
+
+// answerUserCall lets the peer answer the user's outstanding call now (if it has arrived).
+func (p *c13HTTPPeer) answerUserCall() {
+	p.mu.Lock()
+	seen := p.pendSeen
+	p.mu.Unlock()
+	if seen {
+		p.log.Add("user-call-answered")
+		close(p.answer)
+	}
+}
+
+func (p *c13HTTPPeer) ServeHTTP(w http.ResponseWriter, r *http.Request) {
+	// park: this exchange stays as it is until the client abandons it (a host that hangs does not do so for ever:
+	// three intervals later the connection is reset at the latest)
+	park := func() {
+		t := time.NewTimer(3 * p.iv)
+		defer t.Stop()
+		select {
+		case <-r.Context().Done():
+		case <-t.C:
+		case <-p.release:
+		}
+	}
+	event := func(data string) {
+		io.WriteString(w, "event: message\ndata: "+data+"\n\n")
+		w.(http.Flusher).Flush()
+	}
+	switch r.Method {
+	case http.MethodDelete:
+		w.WriteHeader(http.StatusNoContent)
+		return
+	case http.MethodGet:
+		w.Header().Set("Content-Type", "text/event-stream")
+		if p.sse {
+			io.WriteString(w, "event: endpoint\ndata: /msg?sessionid=c13\n\n")
+		} else {
+			w.Header().Set("Mcp-Session-Id", "c13")
+		}
+		w.(http.Flusher).Flush()
+		for {
+			select {
+			case ev := <-p.events:
+				event(ev)
+			case <-r.Context().Done():
+				p.log.Add("transport-close")
+				return
+			case <-p.release:
+				return
+			}
+		}
+	case http.MethodPost:
+	default:
+		w.WriteHeader(http.StatusMethodNotAllowed)
+		return
+	}
+	body, _ := io.ReadAll(r.Body)
+	var m struct {
+		ID     json.RawMessage `json:"id"`
+		Method string          `json:"method"`
+	}
+	if err := json.Unmarshal(body, &m); err != nil {
+		http.Error(w, "bad json", http.StatusBadRequest)
+		return
+	}
+	if m.Method == "notifications/cancelled" {
+		p.mu.Lock()
+		rej := p.rejectCancel
+		p.rejectCancel = false
+		p.mu.Unlock()
+		if rej {
+			p.log.Add("cancel-notice-rejected")
+			w.WriteHeader(http.StatusServiceUnavailable)
+			return
+		}
+	}
+	if len(m.ID) == 0 || m.Method == "" {
+		w.WriteHeader(http.StatusAccepted) // a notification, or the client's response to a request of the peer
+		return
+	}
+	stream := func() {
+		w.Header().Set("Content-Type", "text/event-stream")
+		w.Header().Set("Mcp-Session-Id", "c13")
+		w.(http.Flusher).Flush()
+	}
+	// reply delivers a JSON-RPC response (after the delay, if any) the way the transport has it
+	reply := func(status int, member string, delay time.Duration) {
+		msg := fmt.Sprintf(`{"jsonrpc":"2.0","id":%s,%s}`, m.ID, member)
+		if p.sse {
+			w.WriteHeader(http.StatusAccepted)
+			go func() {
+				time.Sleep(delay)
+				select {
+				case p.events <- msg:
+				case <-p.release:
+				}
+			}()
+			return
+		}
+		time.Sleep(delay)
+		w.Header().Set("Content-Type", "application/json")
+		w.Header().Set("Mcp-Session-Id", "c13")
+		w.WriteHeader(status)
+		io.WriteString(w, msg)
+	}
+	// silence: the request is taken and never answered
+	silence := func() {
+		if p.sse {
+			w.WriteHeader(http.StatusAccepted)
+			return
+		}
+		stream()
+		park()
+	}
+	switch m.Method {
+	case "initialize":
+		reply(200, `"result":`+vhm.InitializeResultJSON("2025-06-18"), 0)
+	case "server/discover":
+		reply(200, `"error":{"code":-32601,"message":"method not found: server/discover"}`, 0)
+	case "tools/list":
+		if !p.spec.Pending {
+			reply(200, `"result":{"tools":[]}`, 0)
+			return
+		}
+		p.log.Add("user-call-received")
+		p.mu.Lock()
+		p.pendSeen = true
+		p.mu.Unlock()
+		res := fmt.Sprintf(`{"jsonrpc":"2.0","id":%s,"result":{"tools":[]}}`, m.ID)
+		if p.sse {
+			w.WriteHeader(http.StatusAccepted)
+			go func() {
+				select {
+				case <-p.answer:
+					select {
+					case p.events <- res:
+					case <-p.release:
+					}
+				case <-p.release:
+				}
+			}()
+			return
+		}
+		// not answered (yet): the POST's response is a stream that stays open
+		stream()
+		select {
+		case <-p.answer:
+			event(res)
+		case <-r.Context().Done():
+		case <-p.release:
+		}
+	case "ping":
+		p.mu.Lock()
+		i := p.nPing
+		p.nPing++
+		o := "A"
+		if i < len(p.spec.Pattern) {
+			o = p.spec.Pattern[i]
+		}
+		if o == "C" {
+			p.rejectCancel = true
+		}
+		p.mu.Unlock()
+		p.log.Add("ping", "i", i, "outcome", o)
+		switch o {
+		case "A":
+			reply(200, `"result":{}`, 0)
+		case "L":
+			reply(200, `"result":{}`, p.iv/2-p.iv/5)
+		case "N":
+			reply(max(200, p.spec.NFStatus), `"error":{"code":-32601,"message":"method not found: ping"}`, 0)
+		case "D":
+			reply(max(200, p.spec.NFStatus), `"error":{"code":-32601,"message":"Method not found","data":{"method":"ping"}}`, 0)
+		case "R":
+			w.WriteHeader(http.StatusServiceUnavailable) // a gateway refuses this one message
+		case "S", "C":
+			silence()
+		case "W":
+			// the host hangs: the POST gets no response at all; the client's Write returns when the ping's deadline expires
+			park()
+		}
+	default:
+		reply(200, `"result":{}`, 0)
+	}
 }
 
 func decideC13(c *vh.Case, spec c13Spec) {
